@@ -37,6 +37,41 @@ def endpoints_program(extra=()):
     return prog
 
 
+def harness_program(crate_dir, crate_name, extra=()):
+    """Program with conjure_http, conjure_object (+ extra) and the MIR of a harness crate of /verif/gen-crates (regenerated when /repo
+    or the crate changes)"""
+    prog = program(['conjure_http', 'conjure_object'] + list(extra))
+    cdir = harness_crate(crate_dir)
+    h = sha_tree([cdir] + [os.path.join(REPO, d) for d in ('conjure-http', 'conjure-macros', 'conjure-object', 'conjure-error', 'conjure-serde', 'conjure-codegen')])[:16]
+    out = os.path.join(MIRDIR, f'{crate_name}-{h}.mir')
+    tdir = os.path.join(BUILD, 'target-' + crate_name)
+    if not (os.path.exists(out) and os.path.getsize(out) > 1000):
+        for old in glob.glob(os.path.join(MIRDIR, f'{crate_name}-*.mir')):
+            os.remove(old)
+        shutil.copyfile(os.path.join(REPO, 'Cargo.lock'), os.path.join(cdir, 'Cargo.lock'))
+        for fp in glob.glob(os.path.join(tdir, 'debug', '.fingerprint', crate_name.replace('_', '-') + '-*')):
+            shutil.rmtree(fp, ignore_errors=True)
+        p = subprocess.run(['cargo', '+nightly', 'rustc', '--offline', '--lib', '--'] + FLAGS, cwd=cdir,
+                           env=env_offline({'CARGO_TARGET_DIR': tdir}), capture_output=True, text=True, timeout=1800)
+        if p.returncode != 0 or len(p.stdout) < 1000:
+            raise Inconclusive(f'the harness crate {crate_dir} does not generate / compile against the current tree: ' + p.stderr[-800:])
+        open(out, 'w').write(p.stdout)
+    # generated sources (build.rs output) are indexed before the MIR is loaded
+    outs = sorted(glob.glob(os.path.join(tdir, 'debug', 'build', crate_name.replace('_', '-') + '-*', 'out')), key=os.path.getmtime)
+    if outs:
+        base = os.path.join(outs[-1], 'conjure')
+        for d, _, fs in os.walk(base):
+            for f in fs:
+                if f.endswith('.rs'):
+                    p_ = os.path.join(d, f)
+                    rel = os.path.relpath(p_, base)[:-3].split(os.sep)
+                    if rel[-1] == 'mod':
+                        rel = rel[:-1]
+                    prog.src.add_file(p_, '::'.join([crate_name, 'gen'] + rel))
+    prog.load(crate_name, out, cdir)
+    return prog
+
+
 # ------------------------------------------------------------------ percent-decoding of bounded symbolic strings
 def hexval(b):
     """(is hex digit, value) of a byte"""
